@@ -8,13 +8,17 @@ Definition today : tables :=
   {| tb_auth := auth_sets; tb_ctl := ctl_sites; tb_enc := enc_sites; tb_calls := call_keys;
      tb_lits := msg_lits; tb_writes := clear_writes; tb_flows := marshal_flows; tb_crw := crypto_rw_shape;
      tb_sniff := sniff_sites; tb_listeners := listener_calls;
-     tb_tls_uses := tls_uses; tb_tls_origin := tls_origin_args; tb_tls_server_calls := sniff_tls_server_calls |}.
+     tb_tls_uses := tls_uses; tb_tls_origin := tls_origin_args; tb_tls_server_calls := sniff_tls_server_calls;
+     tb_sniff_shape := GenWire.sniff_shape_today |}.
 
 Inductive case :=
 (* real CheckAndEnableTLSServerConnWithTimeout on a connection whose peer sends byte b first.
    kept: 1 = the returned conn replays b to its reader, 0 = b was consumed, -1 = not observed *)
 | CSniffFn (force : bool) (b : Z) (is_tls custom err : bool) (kept : Z)
 | CSniffEof (force : bool) (err : bool)
+(* the peer stays silent past the function's wait (then, if the function returned a connection, sends a plain
+   Login): err, and whether the returned connection delivered those late bytes to a reader *)
+| CSniffSilent (force : bool) (err : bool) (late_bytes_delivered : bool)
 (* a running frps, first byte b followed by a probe tail.
    cls: 0 = TLS handshake answered, 1 = a protocol message answered, 2 = closed without any answer *)
 | CSniffSys (force : bool) (b : Z) (cls : Z)
@@ -81,6 +85,9 @@ Definition check_case (c : case) : Z :=
            end
   | CSniffEof force err =>
       if beq (Sniff.is_err (fst (Sniff.sniff_stream force []))) err then 0 else 5
+  | CSniffSilent force err delivered =>
+      if negb (beq (Sniff.is_err (fst (Sniff.sniff_stream force []))) err) then 9
+      else if delivered then 9 else 0
   | CSniffSys force b cls => if sys_expect force b =? cls then 0 else 6
   | CSniffSysL lk force b cls =>
       let l := if lk =? 1 then LkWebsocket else LkKcp in
@@ -154,6 +161,7 @@ Definition C05_holds (c : case) : bool :=
       (negb (conn_tls cfg) || match observed_public with [] => true | _ => false end) &&
       (negb (existsb is_secret observed_public) || (w_token_empty cfg && negb (conn_tls cfg)))
   | CSniffSys force b cls => negb (force && (cls =? 1))
+  | CSniffSilent force _ delivered => negb (force && delivered)
   | CSniffSysL _ force b cls => negb (force && (cls =? 1))
   | _ => true
   end.
